@@ -34,6 +34,8 @@ mod range_set;
 mod tests;
 pub mod transport_parameters;
 mod varint;
+#[cfg(feature = "verif-hooks")]
+pub mod verif;
 
 pub use varint::{VarInt, VarIntBoundsExceeded};
 
